@@ -7,6 +7,8 @@ import ZapVerif.Model.TransZioX
 import ZapVerif.Model.TransCallerX
 import ZapVerif.Model.TransEscapeX
 import ZapVerif.Model.TransCEX
+import ZapVerif.Model.TransCEAddX
+import ZapVerif.Model.TransCoresX
 import ZapVerif.Gen.TransProbe
 /-! `zvdrv CTR`: the interpreter side of the translator's differential test.  An op names a generated table and a
     function, gives arguments and receiver fields; the handler runs the GENERATED term in the GoMini interpreter
@@ -40,9 +42,25 @@ def parseEnv (j : Json) (k : String) : R Env :=
 
 /-- pseudo-field `#enabled`: the levels the wrapped core of a sampler enables (a parameter of the context) -/
 def enabledOf (flds : Env) : Int → Bool :=
-  match flds.get "#enabled" with
+  match (match flds.get "#enabled" with | some v => some v | none => flds.get "#en") with
   | some (.list ls) => fun l => ls.any fun | .int x => x == l | _ => false
   | _ => fun _ => true
+
+/-- the parameters of the core-algebra context as fixed functions of the scripted values (the same on the Go side,
+    harness/cmd/zvh/trans_cores.go): `en` = the levels listed in `#en`, `cen c l` = (id c + l) even,
+    `chk c e ce` = a leaf: the sub-core adds itself iff it enables the entry's level -/
+def coreId : Val → Int
+  | .list (.int i :: _) => i
+  | _ => 0
+
+def coresPar (e : Env) : ZapVerif.TransCores.Par :=
+  let cen : Val → Int → Bool := fun c l => (coreId c + l) % 2 == 0
+  { en := enabledOf e,
+    cen := cen,
+    chk := fun c ent ce =>
+      match ent with
+      | .list (.int l :: _) => if cen c l then ZapVerif.TransCores.addCore ce c else ce
+      | _ => ce }
 
 def tables : List (String × (Env → Ctx)) := [
   ("TransProbe", fun _ => { ext := fun _ _ => none, funs := ZapVerif.Gen.TransProbe.funs }),
@@ -52,6 +70,8 @@ def tables : List (String × (Env → Ctx)) := [
   ("TransCaller", fun _ => ZapVerif.TransCaller.X),
   ("TransEscape", fun _ => ZapVerif.TransEscape.X),
   ("TransCE", fun _ => ZapVerif.TransCE.X),
+  ("TransCEAdd", fun _ => ZapVerif.TransCEAdd.X),
+  ("TransCores", fun e => ZapVerif.TransCores.X (coresPar e)),
   ("TransZio", fun e => ZapVerif.TransZio.X (match e.get "#en" with | some (.bool b) => b | _ => true))
 ]
 
